@@ -75,4 +75,9 @@ theorem selection_after_concurrent_adds (U : Bytes → Tx) (cfg : Config) (txs t
 /-- (regenerated fact) both index updates of AddTx sit inside one `mutTxOperation` critical section -/
 theorem addTx_is_one_critical_section : Facts.addTxIndexUpdatesAtomic = true := Facts.addTx_updates_atomic
 
+/-- (regenerated fact) CountTx / NumBytes / CountSenders are updated iff the chunk-locked map operation reported a change:
+    whatever the interleaving, at quiescence the counters equal what the maps hold -/
+theorem counters_are_paired_with_map_updates : (Facts.hashIndexCountersPaired && Facts.senderCounterPaired) = true :=
+  Facts.counters_paired_with_map_updates
+
 end SV.Props.C14
